@@ -11,7 +11,7 @@ use serde_json::{json, Value};
 pub static ENGINE: Engine = Engine {
     prop: "C10",
     level: "exploration",
-    rule: "the real rsbdd binary on EVERY formula with <= 3 (4) AST nodes over the CLI alphabet (4 leaves, not, & | => ^, if, 4 quantifier heads, lfp/gfp, 5 counting comparisons; names bound, free, both) with -t under filter Any/True/False; on every formula <= 2 (3) nodes additionally: all 15 accepted filter spellings and 6 rejected near-misses, the three input channels (--evaluate, file, stdin; byte-identical stdout), every permutation / ordered subset / one-name superset (unused name before, between, after) of its names as ordering file, -v, -t -b 1, -t -b 3 (byte-identical to -t), and on a 14-formula core the full cross product spelling x channel x ordering x output; ten formulas with five or six free variables under three filters, -v and four orderings. Oracle: header = reference free variables in variable order; rows pairwise disjoint cubes; result column = reference value on every assignment covered; union = all / satisfying / falsifying assignments; -v lines denote exactly the satisfying assignments. distinct = distinct (argv, stdout) pairs",
+    rule: "the real rsbdd binary on EVERY formula with <= 3 (4) AST nodes over the CLI alphabet (4 leaves, not, & | => ^, if, 4 quantifier heads, lfp/gfp, 5 counting comparisons; names bound, free, both) with -t under filter Any/True/False; on every formula <= 2 (3) nodes additionally: all 15 accepted filter spellings and 6 rejected near-misses, the three input channels (--evaluate, file, stdin; byte-identical stdout), every permutation / ordered subset / one-name superset (unused name before, between, after) of its names as ordering file, -v, -t -v together under each filter, -t -b 1, -t -b 3 (byte-identical to -t), and on a 14-formula core the full cross product spelling x channel x ordering x output; ten formulas with five or six free variables under three filters, -v and four orderings. Oracle: header = reference free variables in variable order; rows pairwise disjoint cubes; result column = reference value on every assignment covered; union = all / satisfying / falsifying assignments; -v lines denote exactly the satisfying assignments. distinct = distinct (argv, stdout) pairs",
     assumptions: &["only the |-separated cells of stdout are read (layout is free)", "reference semantics and free-variable analysis of harness/src/refl.rs; -b 0 and -g are outside the property"],
     max_shards: 64,
     run,
@@ -43,6 +43,8 @@ const REJECTED: [&str; 6] = ["TRUE", "yes", "", "tt", "2", "ANY"];
 enum Mode {
     Table(Filter),
     Vars,
+    /// -t and -v together: the table under the filter AND all satisfying rows from -v
+    Both(Filter),
     Reject,
 }
 
@@ -56,7 +58,7 @@ fn expect_of(a: &Ast) -> Option<Expect> {
 }
 
 fn case(inv: &Inv, mode: Mode) -> Value {
-    json!({"part": "run", "inv": inv.to_json(), "mode": match mode { Mode::Table(Filter::Any) => "any", Mode::Table(Filter::True) => "true", Mode::Table(Filter::False) => "false", Mode::Vars => "vars", Mode::Reject => "reject" }})
+    json!({"part": "run", "inv": inv.to_json(), "mode": match mode { Mode::Table(Filter::Any) => "any", Mode::Table(Filter::True) => "true", Mode::Table(Filter::False) => "false", Mode::Vars => "vars", Mode::Both(Filter::Any) => "both-any", Mode::Both(Filter::True) => "both-true", Mode::Both(Filter::False) => "both-false", Mode::Reject => "reject" }})
 }
 
 /// run one invocation and judge its stdout; returns stdout for cross-run comparisons
@@ -84,6 +86,11 @@ fn check_run(ctx: &mut Ctx, inv: &Inv, mode: Mode) -> Option<Vec<u8>> {
     let complaints = match mode {
         Mode::Table(f) => judge_table(&r.run.out(), &exp, &order, f),
         Mode::Vars => judge_vars(&r.run.out(), &exp, &order),
+        Mode::Both(f) => {
+            let mut c = judge_table(&r.run.out(), &exp, &order, f);
+            c.extend(judge_vars(&r.run.out(), &exp, &order));
+            c
+        }
         Mode::Reject => vec![],
     };
     if !complaints.is_empty() {
@@ -178,8 +185,11 @@ fn family_b(ctx: &mut Ctx, text: &str, names: &[String]) {
             }
         }
     }
-    // -v
+    // -v, and -t -v together under every filter (the filter applies to the table only)
     check_run(ctx, &base(text, vec!["-v".into()]), Mode::Vars);
+    check_run(ctx, &base(text, vec!["-t".into(), "-v".into()]), Mode::Both(Filter::Any));
+    check_run(ctx, &base(text, vec!["-v".into(), "-t".into(), "-f".into(), "t".into()]), Mode::Both(Filter::True));
+    check_run(ctx, &base(text, vec!["-t".into(), "-v".into(), "-f".into(), "False".into()]), Mode::Both(Filter::False));
     // orderings
     for o in orderings_for(names) {
         let mut inv = base(text, vec!["-t".into()]);
@@ -303,6 +313,9 @@ fn replay(ctx: &mut Ctx, c: &Value) {
         Some("true") => Mode::Table(Filter::True),
         Some("false") => Mode::Table(Filter::False),
         Some("vars") => Mode::Vars,
+        Some("both-any") => Mode::Both(Filter::Any),
+        Some("both-true") => Mode::Both(Filter::True),
+        Some("both-false") => Mode::Both(Filter::False),
         Some("reject") => Mode::Reject,
         _ => Mode::Table(Filter::Any),
     };
